@@ -1,0 +1,110 @@
+// Copyright 2016-2019 DutchSec (https://dutchsec.com/)
+//
+// Licensed under the Apache License, Version 2.0 (the "License");
+// you may not use this file except in compliance with the License.
+// You may obtain a copy of the License at
+//
+// http://www.apache.org/licenses/LICENSE-2.0
+//
+// Unless required by applicable law or agreed to in writing, software
+// distributed under the License is distributed on an "AS IS" BASIS,
+// WITHOUT WARRANTIES OR CONDITIONS OF ANY KIND, either express or implied.
+// See the License for the specific language governing permissions and
+// limitations under the License.
+package ldap
+
+import (
+	"bufio"
+	"bytes"
+	"errors"
+	"fmt"
+	"io"
+
+	ber "github.com/go-asn1-ber/asn1-ber"
+)
+
+// maxMessageSize bounds what a client can make us allocate for one LDAPMessage
+const maxMessageSize = 4 * 1024 * 1024
+
+var errMalformedLength = errors.New("ldap: malformed or unsupported BER length")
+
+// berHeader decodes the identifier and (definite) length octets at the start of b
+func berHeader(b []byte) (hdr int, size int, err error) {
+	if len(b) < 2 || b[0]&0x1f == 0x1f || b[1] == 0x80 {
+		return 0, 0, errMalformedLength
+	}
+
+	hdr, size = 2, int(b[1])
+
+	if b[1]&0x80 != 0 {
+		k := int(b[1] & 0x7f)
+		if k > 4 || len(b) < 2+k {
+			return 0, 0, errMalformedLength
+		}
+
+		size = 0
+		for _, c := range b[2 : 2+k] {
+			size = size<<8 | int(c)
+		}
+
+		hdr = 2 + k
+	}
+
+	return hdr, size, nil
+}
+
+// checkLengths verifies that no nested element announces more content than its parent holds
+func checkLengths(b []byte) error {
+	for len(b) > 0 {
+		hdr, size, err := berHeader(b)
+		if err != nil {
+			return err
+		} else if size > len(b)-hdr {
+			return errMalformedLength
+		}
+
+		if b[0]&0x20 != 0 {
+			if err := checkLengths(b[hdr : hdr+size]); err != nil {
+				return err
+			}
+		}
+
+		b = b[hdr+size:]
+	}
+
+	return nil
+}
+
+// readMessage reads one LDAPMessage without trusting the lengths it announces: the BER reader
+// allocates every announced length, at any nesting depth, before the content has arrived, so a
+// few bytes from a client were enough to exhaust the memory of the process.
+func readMessage(br *bufio.Reader) (*ber.Packet, error) {
+	lead, err := br.Peek(2)
+	if err != nil {
+		return nil, err
+	}
+
+	if lead[1]&0x80 != 0 && lead[1] != 0x80 {
+		if lead, err = br.Peek(2 + int(lead[1]&0x7f)); err != nil {
+			return nil, err
+		}
+	}
+
+	hdr, size, err := berHeader(lead)
+	if err != nil {
+		return nil, err
+	} else if size > maxMessageSize {
+		return nil, fmt.Errorf("ldap: message of %d bytes refused", size)
+	}
+
+	buf := make([]byte, hdr+size)
+	if _, err := io.ReadFull(br, buf); err != nil {
+		return nil, err
+	}
+
+	if err := checkLengths(buf[hdr:]); err != nil {
+		return nil, err
+	}
+
+	return ber.ReadPacket(bytes.NewReader(buf))
+}
